@@ -20,6 +20,7 @@ from collections import deque
 from typing import Dict, List, Optional, Tuple, Iterable, Set, Callable, NamedTuple
 
 from .model import AnalysisError, unparse, walk_no_nested
+from .inline import InlineBlock, InlineJump
 
 
 class Node:
@@ -96,6 +97,7 @@ class _Ctx(NamedTuple):
     brk: Optional[Node]
     cont: Optional[Node]
     tag: str
+    jmp: Optional[Node] = None  # end of the innermost inlined-helper block (see inline.py)
 
 
 def may_raise(node: ast.AST) -> bool:
@@ -219,6 +221,15 @@ class CFG:
             return loop
         if isinstance(st, ast.Try) or st.__class__.__name__ == "TryStar":
             return self._try(st, nxt, ctx)  # type: ignore
+        if isinstance(st, InlineBlock):
+            # an inlined helper: its `return`s were rewritten into jumps to the end of the block
+            return self._block(st.body, nxt, ctx._replace(brk=None, cont=None, jmp=nxt))
+        if isinstance(st, InlineJump):
+            if ctx.jmp is None:
+                raise AnalysisError("inline jump outside an inlined block")
+            n = self._new("stmt", st, tag=ctx.tag)
+            self._edge(n, ctx.jmp, "n")
+            return n
         if isinstance(st, (ast.With, ast.AsyncWith)):
             body = self._block(st.body, nxt, ctx)
             return self._simple(st, body, ctx)
@@ -261,7 +272,12 @@ class CFG:
                 if ctx.cont is not None
                 else None
             )
-            outer = _Ctx(f_exc, f_ret, f_brk, f_cont, ctx.tag)
+            f_jmp = (
+                self._block(st.finalbody, ctx.jmp, ctx._replace(tag=tagbase + ":jmp"))
+                if ctx.jmp is not None
+                else None
+            )
+            outer = _Ctx(f_exc, f_ret, f_brk, f_cont, ctx.tag, f_jmp)
             after = f_norm
         else:
             after = nxt
